@@ -631,7 +631,9 @@ func checkC10(p *Prog, res *Result, tier string) {
 	{
 		sub7 := p.subResult("C07", tier)
 		for _, o := range sub7.Obls {
-			if o.Rule == "C07-R3" {
+			// (C07-R9: .. and compaction ranges are ordered as internal keys: the border list is sorted after it was
+			// encoded - the order of the names is not the order of the directories they denote)
+			if o.Rule == "C07-R3" || (o.Rule == "C07-R9" && strings.Contains(o.Construct, "sorted")) {
 				res.add("C10-R5", o.Rule+" "+o.Construct, o.Status, o.Pos, o.Detail)
 			}
 		}
